@@ -264,12 +264,15 @@ pub fn default_script(t: &mut TermState, req: &ReqRec, outcome: &Outcome, interm
                 }
             } else {
                 inter(&mut s);
+                // the client closes the token whatever the outcome; the simulated terminal forgets the
+                // receipt in both cases as well, so receipt numbers stay within 1..=max+1 and the
+                // state space of the history search stays finite
+                if let Some(rc) = receipt {
+                    t.ledger.remove(&(rc as u32));
+                }
                 match outcome {
                     Outcome::Abort(c) => s.push(r.reversal_abort(*c, None)),
                     o => {
-                        if let Some(rc) = receipt {
-                            t.ledger.remove(&(rc as u32));
-                        }
                         if *o == Outcome::Ok {
                             s.push(r.status(
                                 &[
@@ -291,11 +294,13 @@ pub fn default_script(t: &mut TermState, req: &ReqRec, outcome: &Outcome, interm
         }
         "PreAuthReversal" => {
             inter(&mut s);
+            if let Some(rc) = field("receipt_no") {
+                t.ledger.remove(&(rc as u32));
+            }
             match outcome {
                 Outcome::Abort(c) => s.push(r.reversal_abort(*c, None)),
                 _ => {
                     if let Some(rc) = field("receipt_no") {
-                        t.ledger.remove(&(rc as u32));
                         if t.dangling == Some(rc as u32) {
                             t.dangling = None;
                         }
